@@ -21,21 +21,21 @@ structure RHyp (E : Env U π) (rank : UNT U → Nat) (Good : π → Prop) : Prop
 theorem RHyp.nhyp (R : RHyp E rank Good) : NHyp E := ⟨R.ohyp.ghyp, R.disj, R.starts_nodup, Or.inl R.nofilter⟩
 
 /-- every non-terminal is untouched or fully initialised -/
-def All (E : Env U π) (s : St U π) : Prop := ∀ nt, Uninit s nt ∨ (NTInv E s nt ∧ s.succOf nt ≠ [])
+def All (E : Env U π) (rank : UNT U → Nat) (s : St U π) : Prop := ∀ nt, Uninit s nt ∨ Full E rank s nt
 
-theorem All.below {s : St U π} (h : All E s) (r : Nat) : Below E rank r s := fun nt _ => h nt
+theorem All.below {s : St U π} (h : All E rank s) (r : Nat) : Below E rank r s := fun nt _ => h nt
 
-theorem All.same {s s' : St U π} (h : All E s) (hs : ∀ nt, Same s s' nt) (hst : Stable s s') : All E s' := by
+theorem All.same {s s' : St U π} (h : All E rank s) (hs : ∀ nt, Same s s' nt) (hst : Stable s s') : All E rank s' := by
   intro nt
-  rcases h nt with hu | ⟨hn, hl⟩
+  rcases h nt with hu | hf
   · exact Or.inl (hu.transfer (hs nt))
-  · exact Or.inr ⟨hn.transfer (hs nt) hst, by rw [(hs nt).succ]; exact hl⟩
+  · exact Or.inr (hf.transfer (hs nt) hst (fun sj _ => Kept.of_same (hs sj)))
 
 /-- the invariant of the generator loop; `emE` = the entries taken from the start heap, most recent first -/
-structure OG (E : Env U π) (s : St U π) (emE : List (π × Prog × UNT U)) : Prop where
+structure OG (E : Env U π) (rank : UNT U → Nat) (s : St U π) (emE : List (π × Prog × UNT U)) : Prop where
   base : Base E s
   ginv : GInv E s (emE.map (·.2))
-  all : All E s
+  all : All E rank s
   heap_ge : ∀ e, e ∈ s.startHeap → ∀ x, x ∈ emE → E.ops.lt e.1 x.1 = false
   sorted : emE.Pairwise (fun x y => E.ops.lt x.1 y.1 = false)
   sheap : Heapq.IsHeap (ltS E.ops) s.startHeap
@@ -43,13 +43,13 @@ structure OG (E : Env U π) (s : St U π) (emE : List (π × Prog × UNT U)) : P
 
 /-- `__push_next_from_start__(start, program)`: the state part -/
 theorem OG.pushNext (R : RHyp E rank Good) {fuel : Nat} {s s' : St U π} {emE : List (π × Prog × UNT U)}
-    {nt : UNT U} {p : Option Prog} (h : OG E s emE) (hnt : nt ∉ s.startHeap.map (·.2.2))
+    {nt : UNT U} {p : Option Prog} (h : OG E rank s emE) (hnt : nt ∉ s.startHeap.map (·.2.2))
     (hkey : p = (doneR (emE.map (·.2)) nt).head?) (hpp : ∀ k, p = some k → Popped s nt k)
     (hpn : p = none → emE = [])
     (bound : π) (hbound : ∀ x, x ∈ emE → E.ops.lt bound x.1 = false)
     (hkb : ∀ k w pr, p = some k → startW E nt = some w → HasPrio E k nt pr → bound = E.ops.adjust pr w)
     (hp : pushNext E fuel s nt p = some s') :
-    OG E s' emE ∧ (∀ e, e ∈ s'.startHeap → e ∈ s.startHeap ∨ (e.2.2 = nt ∧ (p = none ∨ E.ops.lt e.1 bound = false))) := by
+    OG E rank s' emE ∧ (∀ e, e ∈ s'.startHeap → e ∈ s.startHeap ∨ (e.2.2 = nt ∧ (p = none ∨ E.ops.lt e.1 bound = false))) := by
   have H := R.ohyp
   have hk := H.ghyp.kway
   obtain ⟨g', hsub⟩ := h.ginv.pushNext R.nhyp hnt hkey hp
@@ -57,31 +57,33 @@ theorem OG.pushNext (R : RHyp E rank Good) {fuel : Nat} {s s' : St U π} {emE : 
   have hopre : ∀ s0, s0 = s → OPre E rank (.query nt p) s0 := by
     intro s0 e; subst e
     refine ⟨h.all.below _, ?_, hpp⟩
-    rcases h.all nt with hu | ⟨hn, _⟩
+    rcases h.all nt with hu | hf
     · exact Or.inl hu
-    · exact Or.inr hn
+    · exact Or.inr ⟨hf.1, hf.2.2⟩
   split at hp
   · simp at hp
   · rename_i s1 hq
     simp only [Option.some.injEq] at hp; subst hp
     have hb := big_of_query E hq
-    obtain ⟨hbase1, hst1, hfr1, _, _⟩ := big_all H hb h.base trivial trivial
-    obtain ⟨a1, a2, a3, _⟩ := big_order H hb h.base trivial trivial (hopre s rfl)
+    obtain ⟨hbase1, hst1, hfr1, _, _, hkept1⟩ := big_all H hb h.base trivial trivial
+    obtain ⟨a1, a2, _, _⟩ := big_order H hb h.base trivial trivial (hopre s rfl)
     have hfr1' : Frame rank (rank nt) (some nt) s s1 := hfr1
     have hsh := big_startHeap E hk hb
     refine ⟨⟨hbase1, g', ?_, ?_, h.sorted, hsh ▸ h.sheap, h.em_key⟩, fun e he => Or.inl (hsh ▸ he)⟩
     · intro nt'
-      exact (Below.merge (r := rank nt' + 1) (h.all.below _) hfr1' hst1 a1 ⟨a2, a3⟩) nt' (Nat.lt_succ_self _)
+      exact (Below.merge (r := rank nt' + 1) (h.all.below _) hfr1' hst1 (fun sj => hkept1 sj (by simp [Call.inner])) a1 a2)
+        nt' (Nat.lt_succ_self _)
     · intro e he; rw [hsh] at he; exact h.heap_ge e he
   · rename_i s1 q hq
     have hb := big_of_query E hq
-    obtain ⟨hbase1, hst1, hfr1, hnpost, hspost⟩ := big_all H hb h.base trivial trivial
-    obtain ⟨a1, a2, a3, a4⟩ := big_order H hb h.base trivial trivial (hopre s rfl)
+    obtain ⟨hbase1, hst1, hfr1, hnpost, hspost, hkept1⟩ := big_all H hb h.base trivial trivial
+    obtain ⟨a1, a2, a4, _⟩ := big_order H hb h.base trivial trivial (hopre s rfl)
     have hfr1' : Frame rank (rank nt) (some nt) s s1 := hfr1
     have hsh := big_startHeap E hk hb
-    have hall1 : All E s1 := by
+    have hall1 : All E rank s1 := by
       intro nt'
-      exact (Below.merge (r := rank nt' + 1) (h.all.below _) hfr1' hst1 a1 ⟨a2, a3⟩) nt' (Nat.lt_succ_self _)
+      exact (Below.merge (r := rank nt' + 1) (h.all.below _) hfr1' hst1 (fun sj => hkept1 sj (by simp [Call.inner])) a1 a2)
+        nt' (Nat.lt_succ_self _)
     have hd : Der E q nt := hspost q rfl
     split at hp
     · rename_i s2 pr w hcp hw
@@ -183,8 +185,8 @@ theorem GInv.popStart (hd : SDisj E) {s : St U π} {em : List (Prog × UNT U)} (
     cases hm
 
 theorem OG.pushNexts (R : RHyp E rank Good) {fuel : Nat} : ∀ (l : List (UNT U)) {s s' : St U π},
-    OG E s [] → l.Nodup → (∀ nt, nt ∈ s.startHeap.map (·.2.2) → nt ∉ l) →
-    pushNexts E fuel l s = some s' → OG E s' []
+    OG E rank s [] → l.Nodup → (∀ nt, nt ∈ s.startHeap.map (·.2.2) → nt ∉ l) →
+    pushNexts E fuel l s = some s' → OG E rank s' []
   | [], s, s', h, _, _, hp => by simp only [UHS.pushNexts, Option.some.injEq] at hp; subst hp; exact h
   | nt :: rest, s, s', h, hnd, hdisj, hp => by
     simp only [UHS.pushNexts] at hp
@@ -204,8 +206,8 @@ theorem OG.pushNexts (R : RHyp E rank Good) {fuel : Nat} : ∀ (l : List (UNT U)
 
 /-- the `while len(self._start_heap) > 0` loop of `start_query`, without filter: one iteration -/
 theorem OG.kwayLoop (R : RHyp E rank Good) {fuel : Nat} : ∀ (k : Nat) {s s' : St U π} {emE : List (π × Prog × UNT U)}
-    {r : Option Prog}, OG E s emE → kwayLoop E fuel k s = some (s', r) →
-    (r = none ∧ OG E s' emE) ∨ (∃ e, r = some e.2.1 ∧ OG E s' (e :: emE))
+    {r : Option Prog}, OG E rank s emE → kwayLoop E fuel k s = some (s', r) →
+    (r = none ∧ OG E rank s' emE) ∨ (∃ e, r = some e.2.1 ∧ OG E rank s' (e :: emE))
   | 0, s, s', emE, r, _, hp => by simp [UHS.kwayLoop] at hp
   | k + 1, s, s', emE, r, h, hp => by
     have H := R.ohyp
@@ -219,7 +221,7 @@ theorem OG.kwayLoop (R : RHyp E rank Good) {fuel : Nat} : ∀ (k : Nat) {s s' : 
       obtain ⟨hm, hsub⟩ := mem_of_pop _ _ _ _ hpop
       obtain ⟨hsh', hmin⟩ := Heapq.pop_isHeap (ltS_weakOrder E.ops H.weak) _ _ _ h.sheap hpop
       obtain ⟨g0, hnt0, hpq⟩ := h.ginv.popStart R.disj hpop
-      have h0 : OG E { s with startHeap := h' } ((pa, q, nt) :: emE) := by
+      have h0 : OG E rank { s with startHeap := h' } ((pa, q, nt) :: emE) := by
         refine ⟨⟨g0.sinv, g0.ninv, h.base.hinv, h.base.nodel⟩, g0, ?_, ?_, ?_, hsh', ?_⟩
         · exact h.all.same (fun _ => ⟨rfl, rfl, rfl, rfl, rfl, fun _ => rfl, fun _ _ => rfl⟩) (Stable.refl _)
         · intro e' he' x hx
@@ -255,7 +257,7 @@ theorem OG.kwayLoop (R : RHyp E rank Good) {fuel : Nat} : ∀ (k : Nat) {s s' : 
         obtain ⟨rfl, rfl⟩ := hp
         exact Or.inr ⟨(pa, q, nt), rfl, g1⟩
 
-theorem og_empty (E : Env U π) : OG E (St.empty E.G) [] := by
+theorem og_empty (E : Env U π) : OG E rank (St.empty E.G) [] := by
   have g := ginv_empty E
   have hnil : ∀ (l : AList (UNT U) (AList Sym (List (List (UNT U) × Rat)))) (nt : UNT U) {β : Type},
       (AList.lookup nt (l.map (fun r => (r.1, ([] : List β))))).getD [] = [] := by
@@ -273,8 +275,8 @@ theorem og_empty (E : Env U π) : OG E (St.empty E.G) [] := by
   exact Or.inl ⟨rfl, hnil _ nt, hnil _ nt, hnil _ nt⟩
 
 theorem OG.startQuery (R : RHyp E rank Good) {fuel : Nat} {s s' : St U π} {emE : List (π × Prog × UNT U)}
-    {r : Option Prog} (h : OG E s emE) (hp : startQuery E fuel s = some (s', r)) :
-    (r = none ∧ OG E s' emE) ∨ (∃ e, r = some e.2.1 ∧ OG E s' (e :: emE)) := by
+    {r : Option Prog} (h : OG E rank s emE) (hp : startQuery E fuel s = some (s', r)) :
+    (r = none ∧ OG E rank s' emE) ∨ (∃ e, r = some e.2.1 ∧ OG E rank s' (e :: emE)) := by
   unfold UHS.startQuery at hp
   simp only [R.ohyp.ghyp.kway, if_true] at hp
   split at hp
@@ -292,8 +294,8 @@ theorem OG.startQuery (R : RHyp E rank Good) {fuel : Nat} {s s' : St U π} {emE 
       exact h.kwayLoop R fuel hp
 
 theorem OG.next (R : RHyp E rank Good) {fuel : Nat} : ∀ (k : Nat) {s s' : St U π} {emE : List (π × Prog × UNT U)}
-    {r : Option Prog}, OG E s emE → next E fuel k s = some (s', r) →
-    (r = none ∧ OG E s' emE) ∨ (∃ e, r = some e.2.1 ∧ OG E s' (e :: emE))
+    {r : Option Prog}, OG E rank s emE → next E fuel k s = some (s', r) →
+    (r = none ∧ OG E rank s' emE) ∨ (∃ e, r = some e.2.1 ∧ OG E rank s' (e :: emE))
   | 0, s, s', emE, r, _, hp => by simp [UHS.next] at hp
   | k + 1, s, s', emE, r, h, hp => by
     simp only [UHS.next] at hp
@@ -313,8 +315,8 @@ theorem OG.next (R : RHyp E rank Good) {fuel : Nat} : ∀ (k : Nat) {s s' : St U
       · exact Or.inr ⟨e, he, g⟩
 
 theorem OG.take (R : RHyp E rank Good) {fuel : Nat} : ∀ (k : Nat) {s s' : St U π} {emE : List (π × Prog × UNT U)}
-    {acc out : List Prog} {b : Bool}, OG E s emE → acc = (emE.map (·.2.1)).reverse →
-    take E fuel k s acc = some (s', out, b) → ∃ emE', OG E s' emE' ∧ out = (emE'.map (·.2.1)).reverse
+    {acc out : List Prog} {b : Bool}, OG E rank s emE → acc = (emE.map (·.2.1)).reverse →
+    take E fuel k s acc = some (s', out, b) → ∃ emE', OG E rank s' emE' ∧ out = (emE'.map (·.2.1)).reverse
   | 0, s, s', emE, acc, out, b, h, hacc, hp => by
     simp only [UHS.take, Option.some.injEq, Prod.mk.injEq] at hp
     obtain ⟨rfl, rfl, _⟩ := hp
